@@ -92,8 +92,12 @@ def bins(start, stop, fmt="gff", one=True):
     if start >= MAX_CHROM_SIZE or stop >= MAX_CHROM_SIZE:
         if one:
             return 1
-        else:
+        elif start >= MAX_CHROM_SIZE or start < 0:
             return {1}
+        else:
+            # a query reaching past the binned range still overlaps every bin up to the end of that range;
+            # intervals that themselves reach past it are assigned bin 1, which is always included
+            stop = MAX_CHROM_SIZE - 1
 
     # Jump to highest resolution bin that will fit these coords (depending on
     # whether we have a BED or GFF-style coordinate).
